@@ -62,3 +62,26 @@ func Opt(text string, i int) string {
 	}
 	return r.Out
 }
+
+// Catalogue returns the hand-written minimal modules under corpus/catalogue of the verification tree: one
+// per construct that generators and compilers produce rarely or never. A first line `; expect: accepted`
+// states that every construct in the file is representable in the library's IR, so that a rejection by
+// the parser is a violation and not an unjudged case.
+func Catalogue() []File {
+	root := os.Getenv("VERIF_ROOT")
+	if root == "" {
+		root = "/verif"
+	}
+	ms, _ := filepath.Glob(filepath.Join(root, "corpus", "catalogue", "*.ll"))
+	sort.Strings(ms)
+	var out []File
+	for _, p := range ms {
+		if b, err := os.ReadFile(p); err == nil {
+			out = append(out, File{Name: "corpus/catalogue/" + filepath.Base(p), Text: string(b)})
+		}
+	}
+	return out
+}
+
+// Fixed returns the fixed inputs: the repository's testdata followed by the catalogue.
+func Fixed() []File { return append(RepoTestdata(), Catalogue()...) }
